@@ -2,6 +2,12 @@
 
 package gortsplib
 
+import (
+	"github.com/bluenviron/gortsplib/v5/pkg/description"
+	"github.com/bluenviron/gortsplib/v5/pkg/format"
+	"github.com/bluenviron/gortsplib/v5/pkg/mikey"
+)
+
 // Read-only snapshots of the server's resource tables for the verification harness
 // (property C11: everything tied to an ended connection is released).  Build tag "verif"
 // only; nothing here changes behaviour.  The counts of the server's own maps are read
@@ -50,4 +56,20 @@ func (st *ServerStream) VerifReaders() (int, int, int) {
 	st.mutex.RLock()
 	defer st.mutex.RUnlock()
 	return len(st.readers), len(st.activeUnicastReaders), st.multicastReaderCount
+}
+
+// VerifMikeyAccepted reports whether mikeyToContext accepts the message (SETUP with a secure profile).
+func VerifMikeyAccepted(msg *mikey.Message) bool {
+	_, err := mikeyToContext(msg)
+	return err == nil
+}
+
+// VerifHasH264PacketizationMode0 exports hasH264PacketizationMode0 (ANNOUNCE).
+func VerifHasH264PacketizationMode0(formats []format.Format) bool {
+	return hasH264PacketizationMode0(formats)
+}
+
+// VerifHasBackChannel exports hasBackChannel (ANNOUNCE).
+func VerifHasBackChannel(desc description.Session) bool {
+	return hasBackChannel(desc)
 }
